@@ -588,7 +588,7 @@ impl Engine for GenEngine {
             let noise: Vec<(String, String)> = (0..ctx.draw(4)).map(|i| (format!("NOISE_{}", i), format!("{}", ctx.draw(1 << 30)))).collect();
             let before = list_tree(&root, &out_abs);
             let mut cmd = if use_cli {
-                let mut c = Command::new(CLI);
+                let mut c = Command::new(std::env::var("VERIF_CLI").unwrap_or_else(|_| CLI.to_string()));
                 c.args(cfg.cli_args());
                 c
             } else {
@@ -599,7 +599,7 @@ impl Engine for GenEngine {
             };
             cmd.arg(root.join("in/ir.json")).arg(&out_arg);
             cmd.env_clear()
-                .env("LD_PRELOAD", SHIM)
+                .env("LD_PRELOAD", std::env::var("VERIF_SHIM").unwrap_or_else(|_| SHIM.to_string()))
                 .env("VERIF_HASH_SEED", hash_seed.to_string())
                 .env("VERIF_CLOCK", clock.to_string())
                 .env("HOME", &home)
